@@ -494,6 +494,16 @@ func (s *Server) processUpstream(dctx *dnsContext) (rc resultCode) {
 	}
 
 	if dctx.err = prx.Resolve(pctx); dctx.err != nil {
+		if dctx.origQuestion.Name != "" {
+			// The request has been changed to resolve the canonical name of
+			// a rewrite, see filterDNSRequest.  The error response, which is
+			// still sent to the client, must answer the client's question.
+			req.Question[0] = dctx.origQuestion
+			if pctx.Res != nil && len(pctx.Res.Question) > 0 {
+				pctx.Res.Question[0] = dctx.origQuestion
+			}
+		}
+
 		return resultCodeError
 	}
 
